@@ -43,8 +43,9 @@ func workerDir(w int) string { return filepath.Join(scratch, fmt.Sprintf("w%d", 
 type job struct {
 	tree  *davx.Node
 	reqs  []davx.Req
-	hist  bool // requests form a history (state carries over)
-	fresh bool // rebuild the sandbox before every request
+	hist  bool   // requests form a history (state carries over)
+	fresh bool   // rebuild the sandbox before every request
+	spell string // how the served directory is written in the configuration ("" = clean)
 }
 
 func runJobs(jobs <-chan job, sink *hx.Sink, rootRel []string) {
@@ -55,6 +56,9 @@ func runJobs(jobs <-chan job, sink *hx.Sink, rootRel []string) {
 			defer wg.Done()
 			sb := davx.NewSandbox(workerDir(w), rootRel)
 			for j := range jobs {
+				if j.spell != sb.Spell {
+					sb = davx.NewSandboxSpelled(workerDir(w), rootRel, j.spell)
+				}
 				if err := sb.Reset(j.tree); err != nil {
 					fmt.Fprintln(os.Stderr, "dav: reset:", err)
 					os.Exit(2)
@@ -993,11 +997,12 @@ func stageExotic(sink *hx.Sink) {
 		return davx.Dir("a", davx.File("x"), "d", davx.Dir("f", davx.File("y"), "g", davx.Dir("h", davx.File("z"))),
 			"loop", davx.File(davx.LinkMark+"loop"), "dirlink", davx.File(davx.LinkMark+"d"), "dangling", davx.File(davx.LinkMark+"nowhere"), "devnull", davx.File(davx.LinkMark+"/dev/null"),
 			"withlink", davx.Dir("m", davx.File("m"), "l", davx.File(davx.LinkMark+"../d"), "z", davx.File("z")),
+			"twolinks", davx.Dir("a-dangling", davx.File(davx.LinkMark+"nowhere"), "b-dirlink", davx.File(davx.LinkMark+"../d"), "c-ok", davx.File("fine"), "d-devnull", davx.File(davx.LinkMark+"/dev/null")),
 			"s", deepTree)
 	}
 	methods := []string{"OPTIONS", "GET", "HEAD", "PUT", "DELETE", "MKCOL", "COPY", "MOVE", "PROPFIND"}
 	paths := []string{"/" + long, "/" + long2, "/d/" + long, "/a/" + long, "/" + long + "/x", "/loop", "/loop/x", "/devnull", "/devnull/x", "/dirlink", "/dirlink/f", "/dangling", "/dangling/x",
-		"/withlink", "/withlink/l", "/withlink/l/f", deep, deep + "/leaf", deep + "/" + ok250, "/s", "/d", "/a"}
+		"/withlink", "/withlink/l", "/withlink/l/f", "/twolinks", "/twolinks/a-dangling", "/twolinks/b-dirlink", deep, deep + "/leaf", deep + "/" + ok250, "/s", "/d", "/a"}
 	dests := []string{"/" + long, "/d/" + long2, "/new", "/" + strings.Repeat("D", 200), "/loop", "/loop/x", "/dirlink/new", "/dangling", "/withlink/l/new", deep + "/copy", "/a", "/d"}
 	jobs := make(chan job, 16)
 	go func() {
@@ -1051,6 +1056,35 @@ func stageExotic(sink *hx.Sink) {
 			}
 			jobs <- job{tree: davx.Dir("root", base()), reqs: reqs[i:j], fresh: true}
 		}
+		// the served directory configured through a symbolic link
+		var viaLink []davx.Req
+		for _, p := range []string{"/", "/a", "/d", "/d/g", "/zz", "/withlink", "/twolinks"} {
+			for _, m := range []string{"GET", "OPTIONS", "DELETE", "MKCOL"} {
+				viaLink = append(viaLink, davx.NewReq(m, p))
+			}
+			for _, dp := range []string{"0", "1", "infinity"} {
+				r := davx.NewReq("PROPFIND", p)
+				r.Depth = dp
+				viaLink = append(viaLink, r)
+			}
+			for _, m := range []string{"COPY", "MOVE"} {
+				for _, d := range []string{"/new", "/d/new", "/a"} {
+					r := davx.NewReq(m, p)
+					r.Dest = d
+					viaLink = append(viaLink, r)
+				}
+			}
+			r := davx.NewReq("PUT", p)
+			r.Body = "via link"
+			viaLink = append(viaLink, r)
+		}
+		for i := 0; i < len(viaLink); i += 8 {
+			j := i + 8
+			if j > len(viaLink) {
+				j = len(viaLink)
+			}
+			jobs <- job{tree: davx.Dir("root", base()), reqs: viaLink[i:j], fresh: true, spell: "symlink"}
+		}
 		close(jobs)
 	}()
 	runJobs(jobs, sink, []string{"root"})
@@ -1073,6 +1107,7 @@ func stageTypes(sink *hx.Sink) {
 		tree.Put("plain-"+k, davx.File(contents[k]))
 		tree.Put("as-"+k+".txt", davx.File(contents[k]))
 	}
+	tree.Put("tmpish", davx.Dir(".webdav-upload-1", davx.File("looks like an upload"), ".webdav-upload-2", davx.Dir("in", davx.File("member")), ".webdav-copy-3", davx.File("c"), "z", davx.File("last")))
 	tree.Put("col.txt", davx.Dir("inner.html", davx.File(contents["text"]), "sub.d", davx.Dir("deep.pdf", davx.File(contents["html"]))))
 	var reqs []davx.Req
 	var paths []string
@@ -1093,6 +1128,23 @@ func stageTypes(sink *hx.Sink) {
 				reqs = append(reqs, r)
 			}
 		}
+	}
+	// names that look like the server's own temporary files are ordinary resources
+	for _, step := range [][3]string{{"COPY", "/tmpish", "/tmpish-copy"}, {"PROPFIND", "/tmpish-copy", ""}, {"COPY", "/tmpish/.webdav-upload-2", "/up2"},
+		{"MOVE", "/tmpish-copy", "/tmpish-moved"}, {"PROPFIND", "/tmpish-moved", ""}, {"COPY", "/tmpish", "/tmpish-moved"}, {"GET", "/tmpish-moved/.webdav-upload-1", ""},
+		{"PUT", "/tmpish/.webdav-upload-9", ""}, {"DELETE", "/tmpish/.webdav-upload-2", ""}, {"PROPFIND", "/tmpish", ""}, {"COPY", "/tmpish", "/t0"}} {
+		r := davx.NewReq(step[0], step[1])
+		r.Dest = step[2]
+		if step[0] == "PROPFIND" {
+			r.Depth = "infinity"
+		}
+		if step[0] == "PUT" {
+			r.Body = "u"
+		}
+		if step[2] == "/t0" {
+			r.Depth = "0"
+		}
+		reqs = append(reqs, r)
 	}
 	// a PUT changes what a later GET says
 	for _, n := range []string{"/new.html", "/a.txt", "/newnoext"} {
